@@ -345,8 +345,37 @@ def run(args, work, res):
     with ThreadPoolExecutor(args.jobs) as ex:
         for r in ex.map(lambda t: run_driver(b, t[0], t[1], args, extra), todo):
             results.append(r)
+    # ---- ABI pass: shift-type entry points called with garbage in bits 32..63 of the register holding their int-typed count
+    abi_ops = {"__gmpn_lshift", "__gmpn_rshift", "__gmpn_lshiftc", "__gmpn_rsh_divrem_hensel_qr_1_1", "__gmpn_rsh_divrem_hensel_qr_1_2"}
+    abi_known = {(k["kernel"], k["entry"]) for k in json.load(open(os.path.join(HERE, "known_findings.json"))).get("abi_upper_bits", [])}
+    abi_todo = [] if replay else [(rel, so) for rel, so in todo if abi_ops & set(built[rel][2])]
+    abi_results = []
+    with ThreadPoolExecutor(args.jobs) as ex:
+        for r in ex.map(lambda t: run_driver(b, t[0], t[1], args, ["--abi-garbage", "1"]), abi_todo):
+            abi_results.append(r)
+    abi_mism, abi_hit = [], set()
+    for rel, rc, js, err, dt in abi_results:
+        if rc == 3 and js and "sigill" in js:
+            continue
+        if js and "crash" in js and js["crash"]["in_kernel"]:
+            c = js["crash"]; ent = c["entry"].rstrip("+")
+            if (rel, ent) in abi_known: abi_hit.add((rel, ent))
+            else: abi_mism.append((rel, c["entry"], {"n": int(dict(t.split("=", 1) for t in c["case"].split()).get("n", 0)), "reference": "crash", "detail": "signal %d inside the kernel (count passed with non-zero upper register half)" % c["signal"], "case": c["case"]}))
+            continue
+        if js is None or "entries" not in js or rc not in (0, 1):
+            res.setdefault("abi_pass_faults", []).append("%s: driver rc=%s %s" % (rel, rc, err[-200:])); continue
+        for e in js["entries"]:
+            ent = e["entry"].rstrip("+"); res["abi_pass_calls"] = res.get("abi_pass_calls", 0) + e["calls"]
+            if "mismatch" in e:
+                if (rel, ent) in abi_known: abi_hit.add((rel, ent))
+                else:
+                    mm = dict(e["mismatch"]); mm["detail"] = "count passed with non-zero bits 32..63 in its register (undefined by the ABI for an int argument): " + mm.get("detail", ""); abi_mism.append((rel, e["entry"], mm))
+    res["abi_known_reproduced"] = sorted("%s:%s" % k for k in abi_hit)
+    res["abi_known_not_reproduced"] = sorted("%s:%s" % k for k in abi_known - abi_hit) if not (args.only or replay) else []
+    if abi_hit:
+        res["abi_known_line"] = ("kernel-shift-count-upper-register-half: %d kernel entry points (mpn_lshift / mpn_rshift / mpn_lshiftc / mpn_rsh_divrem_hensel_qr_1_{1,2} of the k8, k10, bobcat, atom, sandybridge, haswell/avx, netburst, core2, nehalem directories) read their int-typed shift count from the full 64-bit register and return zeros when bits 32..63 of that register are not zero, which the SysV ABI allows a caller to leave there; the portable C routines use the low half only: %s" % (len(abi_hit), ", ".join(sorted("%s:%s" % k for k in abi_hit))))
     # ---- aggregate
-    mism, faults, eps, labels, samples, largest = [], [], set(), {}, [], (0, None)
+    mism, faults, eps, labels, samples, largest = list(abi_mism), [], set(), {}, [], (0, None)
     for rel, rc, js, err, dt in results:
         if rc == 3 and js and "sigill" in js:
             res["skipped_sigill"].append({"kernel": rel, "entry": js["sigill"]}); continue
